@@ -1609,8 +1609,8 @@ for pid, gen, extra in (
 # run (translator/extract_formulas.py -> Generated/Formulas.lean, proved equal to the hand model in Lemmas/Formulas/*)
 FORMULAS = {
     'C01': ['ark_compress', 'ark_decompress', 'min_compress', 'min_decompress'],
-    'C02': ['ark_decompress', 'min_decompress'],
-    'C03': ['ark_compress', 'min_compress', 'ark_eq', 'min_eq', 'ark_affine_eq'],
+    'C02': ['ark_decompress', 'min_decompress', 'convforms'],
+    'C03': ['ark_compress', 'min_compress', 'ark_eq', 'min_eq', 'ark_affine_eq', 'convforms'],
     'C04': ['min_add', 'min_double', 'min_neg', 'opforms'],
     'C05': ['min_add', 'min_double', 'opforms', 'min_scalar_mul_step', 'min_scalar_mul', 'min_scalar_mul_vartime'],
     'C06': ['ark_decompress', 'min_decompress', 'ark_elligator', 'min_elligator'],
